@@ -17,7 +17,7 @@
     skip                                                    → ok | err commit-failed
     finalize ft=<n>                                         → ok
     vacuum ftc=<n> ftr=<n>                                  → ok
-    doctor vac=<0|1> ftd= fta= ftb= fto=                    → ok
+    doctor vac=<0|1> rt= rl= rv= ftd= fta= ftb= fto=                  → ok
     ticket seq=<int> cap=<n> blank=<0|1> free=<0|1>         → ok | err ticket-seq
     obs                                                     → the observation (Core.obs)
     head                                                    → the observation without the frame table
@@ -134,7 +134,7 @@ def drvStep (m : Mem) (ws : List String) : Mem × String :=
     | "skip" => fin (step m .commitSkipIndexes)
     | "finalize" => fin (step m (.finalizeIndexes (getN kv "ft")))
     | "vacuum" => fin (step m (.vacuum (getN kv "ftc") (getN kv "ftr")))
-    | "doctor" => fin (step m (.doctor (getB kv "vac") (getN kv "ftd") (getN kv "fta") (getN kv "ftb") (getN kv "fto")))
+    | "doctor" => fin (step m (.doctor (getB kv "vac") (getB kv "rt") (getB kv "rl") (getB kv "rv") (getN kv "ftd") (getN kv "fta") (getN kv "ftb") (getN kv "fto")))
     | "ticket" =>
       match getI kv "seq" with
       | some s => fin (step m (.ticket s (getN kv "cap") (getB kv "blank") (getB kv "free")))
